@@ -216,6 +216,9 @@ def run(an: Analysis, rep):
     rep.run(c10.format_rules, an, SharedRules(rep, "R02.L", "line-table format constants (shared with C10's R10.*): the line shown for an instruction is read through them"))
     from .common import rejection_paths_rule
     rep.run(rejection_paths_rule, an, rep, "R02.R", ["from_code"], DECODER_REJECTIONS, "from_code")
+    from . import c11 as _c11q
+    rep.run(_c11q.r11q, an, SharedRules(rep, "R02.Q", "the guard that refuses repeated free variable names refuses nothing else (shared with C11's R11.Q): a name that is both a cell and a free variable "
+                                                     "(`__class__`) is compiler output and has to decode"), "R11.Q")
     from . import c08
     rep.run(c08.r083, an, SharedRules(rep, "R02.S", "what the decoder stores in the data classes has the declared (hashable) shape (shared with C08's R08.3): a list left in a tuple field makes the decoding of the "
                                                    "enclosing code object raise when it keys its constants"))
